@@ -55,17 +55,19 @@ def gen_mdp(rng, length, S=None, A=None, ek=None, strict=True, kinds=("d",), foc
     ops = []
     rews = rng.sample(REW, rng.randint(1, 6))
     hot = rng.sample(keys, min(len(keys), rng.randint(1, 3)))   # pairs visited most
+    if focus: hot = hot[:1]
     def mk():
-        kind = rng.choice(kinds) if ek != "D" else "d"; flag = rng.randint(0, 1)
+        kind = rng.choice(kinds) if ek != "D" else "d"; flag = 1 if rng.random() < 0.3 else 0
         models.append((kind, Trk(n, last, flag)))
         ops.append("m %s %d" % (kind, flag))
     if rng.random() < 0.5: mk()
     while len(ops) < length:
         u = rng.random()
-        if focus and models: u = min(u, 0.5) if rng.random() < 0.995 else u
+        if focus and models:                       # long run on few pairs: record + incremental sync,
+            u = 0.0 if rng.random() < 0.995 else rng.choice([0.6, 0.67, 0.84])   # rare sync(s,a) / sync() / dump
         if u < 0.55 or not models:
             if not models and rng.random() < 0.15: mk(); continue
-            k = rng.choice(hot) if rng.random() < 0.8 else rng.choice(keys)
+            k = rng.choice(hot) if rng.random() < (0.97 if focus else 0.8) else rng.choice(keys)
             s1 = rng.randrange(S) if rng.random() < 0.7 else (k[0] + 1) % S
             ops.append("r %d %d %d %s" % (k[0], k[1], s1, rng.choice(rews)))
             n[k] += 1; last[k] = s1
@@ -107,7 +109,7 @@ def gen_cross(rng, ek="D", kind="d"):
     S = rng.randint(2, 3); A = rng.randint(1, 2)
     s = rng.randrange(S); a = rng.randrange(A)
     rews = rng.sample(REW, 3)
-    ops = ["m %s %d" % (kind, rng.randint(0, 1))]
+    ops = ["m %s 0" % kind]
     for _ in range(9990): ops.append("r %d %d %d %s" % (s, a, rng.randrange(S), rng.choice(rews)))
     ops.append("p 0 %d %d" % (s, a))
     for _ in range(20):
